@@ -779,3 +779,16 @@ def _nx_set_node_attributes(eng, node, graph, values, name=None):
         raise Unsupported("set_node_attributes on a temporary")
     eng.write_path(eng.lvalue(node.args[0]) + [("attr", f"attr_{name}")], values)
     return None
+
+
+@reg("numpy.random.randint")
+def _np_randint(eng, node, low, high=None, size=None):
+    if size is not None:
+        raise Unsupported("randint with size")
+    r = eng.fresh("np_randint", TInt)
+    if high is None:
+        eng.may_raise("ValueError", I(low) <= 0, node, "randint(high <= 0)")
+        eng.assume(z3.And(0 <= r, r < I(low)))
+    else:
+        eng.assume(z3.And(I(low) <= r, r < I(high)))
+    return r
